@@ -51,6 +51,59 @@ def locate(path, marks):
     return table
 
 
+def locate_all(path, exclude=("__init__",)):
+    """Every line of every function of a file (except the excluded function names) as a yield
+    point: {(function name, lineno): lineno}.  Lines that hold no code never produce an event."""
+    with open(path, encoding="utf-8") as f:
+        tree = ast.parse(f.read())
+    table = {}
+    for node in ast.walk(tree):
+        if isinstance(node, (ast.FunctionDef, ast.AsyncFunctionDef)) and node.name not in exclude:
+            for n in range(node.lineno + 1, node.end_lineno + 1):
+                table[(node.name, n)] = n
+    return table
+
+
+MUTATING_METHODS = {"append", "add", "update", "setdefault", "pop", "clear", "extend", "insert", "remove", "sort",
+                    "popitem", "discard", "reverse"}
+
+
+def _is_self_attr(node):
+    return isinstance(node, ast.Attribute) and isinstance(node.value, ast.Name) and node.value.id == "self"
+
+
+def locate_mutators(path, exclude=("__init__",)):
+    """Yield points on every line of the methods that may mutate the object they belong to after construction:
+    an assignment to `self.x` / `self.x[...]`, or a mutating method call on `self.x`.  Such a method of an
+    object shared through the context (XmlMeta, XmlVar) holds lazily built state.
+    Returns ({(function name, lineno): lineno}, [function names])."""
+    with open(path, encoding="utf-8") as f:
+        tree = ast.parse(f.read())
+    table, names = {}, []
+    for node in ast.walk(tree):
+        if not isinstance(node, (ast.FunctionDef, ast.AsyncFunctionDef)) or node.name in exclude:
+            continue
+        hit = False
+        for sub in ast.walk(node):
+            targets = []
+            if isinstance(sub, ast.Assign):
+                targets = sub.targets
+            elif isinstance(sub, (ast.AugAssign, ast.AnnAssign)):
+                targets = [sub.target]
+            for t in targets:
+                for el in (t.elts if isinstance(t, ast.Tuple) else [t]):
+                    if _is_self_attr(el) or (isinstance(el, ast.Subscript) and _is_self_attr(el.value)):
+                        hit = True
+            if (isinstance(sub, ast.Call) and isinstance(sub.func, ast.Attribute) and sub.func.attr in MUTATING_METHODS
+                    and _is_self_attr(sub.func.value)):
+                hit = True
+        if hit:
+            names.append(node.name)
+            for n in range(node.lineno + 1, node.end_lineno + 1):
+                table[(node.name, n)] = n
+    return table, names
+
+
 class LineScheduler:
     """Controller + per-thread tracers.  files: {filename: {(function, lineno): label}}."""
 
@@ -146,6 +199,28 @@ class LineScheduler:
             self.cv.notify_all()
         self._wait_quiet()
         return True
+
+    def run_random(self, fns, rng, max_steps=50000):
+        """Forced yield points without a model: at every step a random unfinished worker is released for a
+        short burst.  Returns (results by index, number of steps)."""
+        self.start(fns)
+        steps = 0
+        while steps < max_steps:
+            alive = [i for i in range(len(fns)) if self.state.get(i) != "done"]
+            if not alive:
+                break
+            i = rng.choice(alive)
+            for _ in range(rng.choice((1, 1, 1, 2, 3, 5))):
+                if not self.release(i):
+                    break
+                steps += 1
+        for i in range(len(fns)):
+            while self.state.get(i) != "done":
+                self.release(i)
+                steps += 1
+        for t in self.threads.values():
+            t.join(self.step_timeout)
+        return [self.results.get(i) for i in range(len(fns))], steps
 
     def run(self, fns, schedule):
         """Run the workers under `schedule` (worker indices); afterwards every worker is run
